@@ -409,7 +409,7 @@ Report(sref, lit, reps) ==
   IN /\ "report" \in Kinds
      /\ hs # "none"
      /\ tok' = tok + Len(reps)
-     /\ IF i = 0
+     /\ IF i = 0 \/ (i # 0 /\ NodePeer(slots[i].node) = "none")     \* unknown session, or a node id that resolves nowhere
         THEN /\ Commit(e, <<>>, <<>>, slots, free, rx, tx, txseq, nodes)
              /\ UNCHANGED <<nodes, slots, free, rx, tx, txseq, dp, rts, nseq>>
         ELSE LET s == slots[i]
